@@ -270,7 +270,9 @@ fn build_case(rng: &mut Rng) -> Case {
                 opaque_pats.push(format!("{nsn}::.*"));
                 // every struct-like declaration of that namespace becomes opaque
                 for (j, dj) in p.decls.iter().enumerate() {
-                    if dj.ns == d.ns && matches!(dj.kind, DKind::Struct | DKind::Union | DKind::Class | DKind::Template) && !blocked.contains(&j) {
+                    // (the pattern also matches what nested namespaces declare)
+                    let inside = dj.ns.is_some_and(|n| p.namespaces[n] == nsn || p.namespaces[n].starts_with(&format!("{nsn}::")));
+                    if inside && matches!(dj.kind, DKind::Struct | DKind::Union | DKind::Class | DKind::Template) && !blocked.contains(&j) {
                         opaque.insert(j);
                     }
                 }
@@ -581,7 +583,11 @@ fn oracles(
     // items the implementation itself regards as blocklisted / opaque (a typedef of an annotated type
     // inherits the annotation; instantiations and aliases follow their definition)
     for it in &run.dump.items {
-        if (it.blocklisted || it.opaque) && it.kind != "module" {
+        // (a reference to a type is an item of its own, named after the type but living in the namespace that
+        // mentions it: `ns::.*` legitimately matches the reference `ns::S` to a global `S`; only the declarations
+        // themselves are judged here)
+        let is_decl = it.kind != "type" || it.type_kind.as_deref().is_some_and(|k| matches!(k, "Comp" | "Enum" | "Alias" | "TemplateAlias" | "TemplateInstantiation"));
+        if (it.blocklisted || it.opaque) && it.kind != "module" && is_decl {
             if let Some(d) = it.name.split("::").find_map(|comp| p.resolve_ident(&map, comp)) {
                 if !touched.contains(&d) {
                     // inheritance is legitimate for a typedef / template whose definition uses a selected declaration;
